@@ -20,6 +20,12 @@ CHECKS = {
  "C16": ("exploration", "property-based testing against reference models (R-attr, R-tree) plus differential against html5ever's tag token",
          "For generated start tags with arbitrary attribute syntax in HTML/SVG/MathML context, every cut inside the tag and 36 encodings, all Element getters before and after set_attribute/remove_attribute/set_tag_name must equal the model derived from the tag's bytes.",
          "html5ever 0.39 as WHATWG reference for single tags; lookups restricted to names set_attribute accepts.", "4/C16"),
+ "C04": ("exploration", "property-based testing against a reference model (CSS selector evaluator R-css over the induced element tree R-tree)",
+         "Generated selector sets (full supported grammar, shared prefixes) x structured documents x schedules; for every selector the set of start tags its handler fired for must equal the reference evaluation, without duplicates, and independently of the other registered selectors.",
+         "Reference = harness evaluator of CSS Selectors semantics as stated by the property; open finding C04-not-flattening classified by signature.", "4/C04"),
+ "C05": ("exploration", "property-based testing against a reference scope model (R-scope = R-tree + R-css)",
+         "Generated handler combinations (element/end-tag/text/comments per selector, document handlers, optional content-removing mutation) x documents x schedules; the full invocation log (which handler, which token, order) must equal the log computed from the scope model.",
+         "Order between elements closed by one end tag and between several end handlers is not fixed by the property and compared as a multiset.", "4/C05"),
 }
 PENDING = {}
 ALL = [f"C{i:02d}" for i in range(1, 19)]
